@@ -29,6 +29,7 @@ type Ctx struct {
 	pureDone map[string]bool
 	strConsts map[string]string
 	wraps   bool
+	wantText bool // the contract speaks about texts: builtins also state their effect on texts
 	fnName  string
 	heapSorts map[string]string
 	hmerge  map[int][]hmEntry
